@@ -22,6 +22,7 @@ const MountinfoPath = "/proc/self/mountinfo"
 const ShadowingFsTypes = "devtmpfs sysfs"
 
 const LayerconfigFile = "layerconfig"
+const LayerconfigTmpSuffix = ".new"
 const SkeletonLayerconfigFile = "default_layerconfig.skel"
 const SkeletonLayerconfigFileExt = ".skel"
 const SkeletonLayerconfig =
